@@ -173,7 +173,7 @@ CHECKS.update({
         note="Trusted: reference scoping model (vf/h_c07.py Oracle), rowan tree / hashbrown / string models, MIR dump, z3; engine validated "
              "differentially against native (vf/s2validate) and each counterexample is confirmed by engine==native on the concrete text. "
              "Bounds: quick <= 3 items per program, nesting <= 2, names from a pool of 3; thorough 3 items nested to 3 plus all 4-item programs "
-             "of nesting 1, pool of 4; use positions: assignment target, expression statement, initializer, gate / measure operand, indexed target, "
+             "of nesting 1 (pool of 3), and the 2-item programs with a pool of 4 (second built-in name); use positions: assignment target, expression statement, initializer, gate / measure operand, indexed target, "
              "binary operand, if / while condition, width designator.",
         technique=S2, design="6/C07"),
     "C09": dict(
